@@ -3,7 +3,13 @@
   future (asynq/async_task.py: _compute/_computed/_queue_exit/_accept_error for a body that does not block).
 
   One future, a history of operations, and what an observer sees after each operation.
-  Values and errors are identity tokens (Nat); value token 0 is Python's None.
+  Values and errors are identity tokens (Nat); value token 0 is Python's None.  Error tokens stand for exception
+  objects; Python's None in the place of an error (`set_error(None)`, `ErrorFuture(None)`) has its own constructors
+  (`Op.setErrorNone`, `Kind.errorNone`): `_error = None` IS the library's encoding of "no error", so such a call
+  completes the future with the VALUE None (futures.py set_error: `_error = error; _value = None`).
+
+  Kinds modelled: Future (three kinds of provider), ConstFuture, ErrorFuture, AsyncTask whose body does not block.
+  Batches, batch items and blocking tasks are NOT kinds of this model (their completion paths are C11 / the core machine).
 -/
 namespace AsynqModel.Futures
 
@@ -11,7 +17,8 @@ inductive Kind where
   | lazyOk (v : Nat)    -- Future(lambda: v)
   | lazyErr (e : Nat)   -- Future(provider raising e)
   | const (v : Nat)     -- ConstFuture(v)
-  | error (e : Nat)     -- ErrorFuture(e)
+  | error (e : Nat)     -- ErrorFuture(e), e an exception object
+  | errorNone           -- ErrorFuture(None): set_error(None) stores `_error = None, _value = None` = completed with value None
   | taskOk (v : Nat)    -- AsyncTask whose body returns v without yielding
   | taskErr (e : Nat)   -- AsyncTask whose body raises e
   | lazySelfSet (v w : Nat)  -- Future(provider) whose provider completes the future itself with v, then returns w
@@ -53,6 +60,7 @@ abbrev Sub := Nat × Beh
 inductive Op where
   | value | error | call | isComputed
   | setValue (v : Nat) | setError (e : Nat)
+  | setErrorNone         -- `set_error(None)`
   | reset
   | subscribe (id : Nat) (beh : Beh)
   | unsubscribe (id : Nat)
@@ -60,7 +68,7 @@ inductive Op where
 
 def Op.name : Op → String
   | .value => "value" | .error => "error" | .call => "call" | .isComputed => "isComputed"
-  | .setValue _ => "setValue" | .setError _ => "setError" | .reset => "reset" | .subscribe _ _ => "subscribe"
+  | .setValue _ => "setValue" | .setError _ => "setError" | .setErrorNone => "setErrorNone" | .reset => "reset" | .subscribe _ _ => "subscribe"
   | .unsubscribe _ => "unsubscribe"
 
 /-- one notification: which subscriber, the outcome it could read from the future at that moment, and (re-entrant
@@ -89,7 +97,7 @@ structure Obs where
   deriving Repr, DecidableEq, Inhabited
 
 def Kind.sinking : Kind → Bool
-  | .const _ | .error _ => true
+  | .const _ | .error _ | .errorNone => true
   | _ => false
 
 def Kind.isTask : Kind → Bool
@@ -100,6 +108,7 @@ def init (k : Kind) : Fut :=
   match k with
   | .const v => { kind := k, out := some (.val v), subs := [], runs := 0, alive := false }
   | .error e => { kind := k, out := some (.err e), subs := [], runs := 0, alive := false }
+  | .errorNone => { kind := k, out := some (.val 0), subs := [], runs := 0, alive := false }
   | _ => { kind := k, out := none, subs := [], runs := 0, alive := true }
 
 /-- `EventHook.unsubscribe` = `list.remove`: drops the FIRST handler with that identity -/
@@ -121,17 +130,29 @@ def applyBeh (subs : List Sub) (s : Sub) : List Sub :=
     round starts, every handler of the copy is called in order and edits the live list -/
 def afterNotify (subs : List Sub) : List Sub := subs.foldl applyBeh subs
 
-/-- a re-entrant `set_value` / `set_error` from inside a notification finds the future computed -/
+/-- what the observer EXPECTS of a re-entrant `set_value` / `set_error` made from inside a notification: refused -/
 def expInner : Beh → Option Res
   | .reenter _ => some (.raised .alreadyComputed)
   | _ => none
 
+/-- what a re-entrant `set_value` / `set_error` DOES, evaluated against the state of the future at the moment the
+    subscriber runs (set_value / set_error: `if self.is_computed(): raise FutureIsAlreadyComputed`) -/
+def innerRes (f : Fut) : Beh → Option Res
+  | .reenter _ => some (if f.out.isSome then .raised .alreadyComputed else .unit)
+  | _ => none
+
+/-- one subscriber is called with the future in state `f`: it records what it can read from `f` at that moment -/
+def notifyOne (f : Fut) (s : Sub) : Cb := { sub := s.1, seen := f.out, inner := innerRes f s.2 }
+
+/-- the notification the property asks for: subscriber `s` sees outcome `o` and its re-entrant set is refused -/
 def notif (o : Outc) (s : Sub) : Cb := { sub := s.1, seen := some o, inner := expInner s.2 }
 
-/-- `set_value` / `set_error` on an uncomputed future: store, then `_computed` (AsyncTask closes its
-    generator first), then notify every subscriber of the snapshot, swallowing their `Exception`s. -/
+/-- `set_value` / `set_error` on an uncomputed future: FIRST store (`_error = ..; _value = ..`), THEN `_computed`
+    (AsyncTask closes its generator first), which calls every subscriber of the snapshot with the future as it is
+    then, swallowing their `Exception`s. -/
 def complete (f : Fut) (o : Outc) : Fut × List Cb :=
-  ({ f with out := some o, alive := false, subs := afterNotify f.subs }, f.subs.map (notif o))
+  let stored : Fut := { f with out := some o, alive := false }
+  ({ stored with subs := afterNotify f.subs }, f.subs.map (notifyOne stored))
 
 /-- `_compute()` of an uncomputed future: new state, notifications, and the exception `_compute` lets escape -/
 def compute (f : Fut) : Fut × List Cb × Option Exc :=
@@ -142,7 +163,7 @@ def compute (f : Fut) : Fut × List Cb × Option Exc :=
   | .lazyErr e =>   -- Future._compute: set_error(error); raise
     let (f', cbs) := complete { f with runs := f.runs + 1 } (.err e)
     (f', cbs, some (.user e))
-  | .const _ | .error _ => (f, [], some .notImplemented)
+  | .const _ | .error _ | .errorNone => (f, [], some .notImplemented)
   | .lazySelfSet v _ =>
     -- the provider calls set_value(v) on the future (subscribers notified with v); `set_value(provider())` then raises
     -- FutureIsAlreadyComputed, the handler's set_error raises it again: the first outcome stays, the call raises
@@ -206,6 +227,10 @@ def step (f : Fut) (op : Op) : Fut × Res × List Cb :=
     match f.out with
     | some _ => (f, .raised .alreadyComputed, [])
     | none => let (f', cbs) := complete f (.err e); (f', .unit, cbs)
+  | .setErrorNone =>   -- set_error(None): `_error = None; _value = None` - completed with the value None
+    match f.out with
+    | some _ => (f, .raised .alreadyComputed, [])
+    | none => let (f', cbs) := complete f (.val 0); (f', .unit, cbs)
   | .reset => ({ f with out := none }, .unit, [])
   | .subscribe id beh =>
     if f.kind.sinking then (f, .unit, []) else ({ f with subs := f.subs ++ [(id, beh)] }, .unit, [])
@@ -232,15 +257,22 @@ def finalState (f : Fut) : List Op → Fut
 structure Watch where
   known : Option Outc          -- the outcome the observer has seen the future hold (none = not computed)
   subs : List Sub              -- subscribers the observer registered (non-sinking futures), with what they do
-  resets : Nat
-  runs : Nat
+  runs : Nat                   -- how often the provider / task body had run after the previous observation
+  done : Bool                  -- a completion has been observed (an AsyncTask has then lost its generator for good)
   deriving Repr, DecidableEq, Inhabited
 
 def watchInit (k : Kind) : Watch :=
   match k with
-  | .const v => { known := some (.val v), subs := [], resets := 0, runs := 0 }
-  | .error e => { known := some (.err e), subs := [], resets := 0, runs := 0 }
-  | _ => { known := none, subs := [], resets := 0, runs := 0 }
+  | .const v => { known := some (.val v), subs := [], runs := 0, done := false }
+  | .error e => { known := some (.err e), subs := [], runs := 0, done := false }
+  | .errorNone => { known := some (.val 0), subs := [], runs := 0, done := false }
+  | _ => { known := none, subs := [], runs := 0, done := false }
+
+/-- the outcome the future's OWN computation (provider / task body) produces; none = the kind has no computation -/
+def Kind.natural : Kind → Option Outc
+  | .lazyOk v | .taskOk v | .lazySelfSet v _ => some (.val v)
+  | .lazyErr e | .taskErr e => some (.err e)
+  | .const _ | .error _ | .errorNone => none
 
 /-- the subscribers of a notification round, each marked `must` (= has to be notified) unless a subscriber notified
     EARLIER in the same round unsubscribes it before its turn (for those the statement leaves both answers open; the
@@ -267,15 +299,31 @@ def matchCbs (o : Outc) (late : List Nat) : List (Sub × Bool) → List Cb → B
 def notifiedAll (subs : List Sub) (cbs : List Cb) (o : Outc) : Bool :=
   matchCbs o (lateSubs subs) (marks [] subs) cbs
 
-/-- is the result of a read consistent with outcome `o`? (`error()` may also raise the error it reports
-    when this very call ran the computation - Future._compute re-raises; and the call that ran a computation during
-    which somebody else completed the future raises FutureIsAlreadyComputed while the FIRST outcome stays) -/
-def readOk (op : Op) (r : Res) (o : Outc) (fresh : Bool) : Bool :=
+/-- is the result of a read the report of outcome `o`? -/
+def readOk (op : Op) (r : Res) (o : Outc) : Bool :=
   match op with
-  | .value | .call => r == readValue o || (fresh && r == .raised .alreadyComputed)
-  | .error => r == readError o || (fresh && (match o with | .err e => r == .raised (.user e) | _ => false))
-               || (fresh && r == .raised .alreadyComputed)
+  | .value | .call => r == readValue o
+  | .error => r == readError o
   | _ => false
+
+/-- the result of the read that RAN the computation (outcome `o` stored by it).  Besides the plain report of `o` the
+    statement leaves two answers open, each for ONE kind of future only:
+    * a `Future` whose provider raised `e`: `error()` may raise `e` instead of returning it (Future._compute re-raises);
+    * a `Future` that somebody completed while its provider was running: the read may raise FutureIsAlreadyComputed
+      (the provider's own result is refused; the FIRST outcome stays). -/
+def freshReadOk (k : Kind) (op : Op) (r : Res) (o : Outc) : Bool :=
+  readOk op r o ||
+  match k with
+  | .lazyErr e => op == .error && r == .raised (.user e)
+  | .lazySelfSet _ _ => (op == .value || op == .call || op == .error) && r == .raised .alreadyComputed
+  | _ => false
+
+/-- a read of an uncomputed future that left it computed with `o`: did the computation run exactly once and is `o` its
+    outcome?  (An AsyncTask has one generator: once it has been completed - by its body or from outside - a read after
+    `reset_unsafe()` cannot run the body again; it completes the task with None without running anything.) -/
+def computeOk (k : Kind) (w : Watch) (ob : Obs) (o : Outc) : Bool :=
+  if k.isTask && w.done then ob.runs == w.runs && o == .val 0
+  else ob.runs == w.runs + 1 && k.natural == some o
 
 /-- `unsubscribe`: an unsubscribed handler is forgotten (it must not be notified by later completions); unsubscribing
     a handler that is not subscribed raises and changes nothing -/
@@ -284,66 +332,86 @@ def unsubStep (k : Kind) (w : Watch) (id : Nat) (r : Res) : Except String Watch 
   else if hasSub w.subs id then (if r == .unit then .ok { w with subs := eraseSub w.subs id } else .error "unsubscribe")
   else (if r == .raised .notSubscribed then .ok w else .error "unsubscribe")
 
-/-- one observation against the watch state; returns the clause that fails -/
+/-- one observation against the watch state; returns the clause that fails.  EVERY branch fixes the number of runs of
+    the computation relative to the previous observation: it grows (by exactly one) only in a read that finds the future
+    uncomputed. -/
 def watchStep (k : Kind) (w : Watch) (ob : Obs) : Except String Watch :=
-  let runsOk := ob.runs ≤ 1 + w.resets && w.runs ≤ ob.runs
-  if !runsOk then .error "provider-once" else
   match w.known with
   | some o =>
     -- computed: nothing but reset_unsafe may change anything
+    if ob.runs != w.runs then .error "provider-once" else
     match ob.op with
     | .reset =>
-      if ob.after == none && ob.cbs.isEmpty && ob.runs == w.runs then
-        .ok { w with known := none, resets := w.resets + 1 } else .error "reset"
+      if ob.after == none && ob.cbs.isEmpty && ob.res == .unit then .ok { w with known := none } else .error "reset"
     | .subscribe id b =>
-      if ob.after == some o && ob.cbs.isEmpty && ob.runs == w.runs && ob.res == .unit then
+      if ob.after == some o && ob.cbs.isEmpty && ob.res == .unit then
         .ok { w with subs := if k.sinking then w.subs else w.subs ++ [(id, b)] } else .error "single-assignment"
     | .unsubscribe id =>
-      if ob.after == some o && ob.cbs.isEmpty && ob.runs == w.runs then unsubStep k w id ob.res
+      if ob.after == some o && ob.cbs.isEmpty then unsubStep k w id ob.res
       else .error "single-assignment"
-    | .setValue _ | .setError _ =>
+    | .setValue _ | .setError _ | .setErrorNone =>
       if ob.res != .raised .alreadyComputed then .error "failed-set-raises"
-      else if ob.after != some o || !ob.cbs.isEmpty || ob.runs != w.runs then .error "failed-set-noop"
+      else if ob.after != some o || !ob.cbs.isEmpty then .error "failed-set-noop"
       else .ok w
     | .isComputed =>
-      if ob.res == .bool true && ob.after == some o && ob.cbs.isEmpty && ob.runs == w.runs then .ok w
+      if ob.res == .bool true && ob.after == some o && ob.cbs.isEmpty then .ok w
       else .error "reads-stable"
     | .value | .call | .error =>
-      if readOk ob.op ob.res o false && ob.after == some o && ob.cbs.isEmpty && ob.runs == w.runs then .ok w
+      if readOk ob.op ob.res o && ob.after == some o && ob.cbs.isEmpty then .ok w
       else .error "reads-stable"
   | none =>
     match ob.op with
     | .reset =>
-      if ob.after == none && ob.cbs.isEmpty && ob.runs == w.runs then .ok { w with resets := w.resets + 1 }
+      if ob.runs != w.runs then .error "provider-once"
+      else if ob.after == none && ob.cbs.isEmpty && ob.res == .unit then .ok w
       else .error "reset"
     | .subscribe id b =>
-      if ob.after == none && ob.cbs.isEmpty && ob.runs == w.runs && ob.res == .unit then
+      if ob.runs != w.runs then .error "provider-once"
+      else if ob.after == none && ob.cbs.isEmpty && ob.res == .unit then
         .ok { w with subs := if k.sinking then w.subs else w.subs ++ [(id, b)] } else .error "subscribe"
     | .unsubscribe id =>
-      if ob.after == none && ob.cbs.isEmpty && ob.runs == w.runs then unsubStep k w id ob.res
+      if ob.runs != w.runs then .error "provider-once"
+      else if ob.after == none && ob.cbs.isEmpty then unsubStep k w id ob.res
       else .error "subscribe"
     | .isComputed =>
-      if ob.res == .bool false && ob.after == none && ob.cbs.isEmpty && ob.runs == w.runs then .ok w
+      if ob.runs != w.runs then .error "provider-once"
+      else if ob.res == .bool false && ob.after == none && ob.cbs.isEmpty then .ok w
       else .error "reads-stable"
     | .setValue v =>
-      if ob.res == .unit && ob.after == some (.val v) && ob.runs == w.runs then
-        if notifiedAll w.subs ob.cbs (.val v) then .ok { w with known := some (.val v), subs := afterNotify w.subs }
+      if ob.runs != w.runs then .error "provider-once"
+      else if ob.res == .unit && ob.after == some (.val v) then
+        if notifiedAll w.subs ob.cbs (.val v) then
+          .ok { w with known := some (.val v), subs := afterNotify w.subs, done := true }
         else .error "notify-once"
       else .error "set"
     | .setError e =>
-      if ob.res == .unit && ob.after == some (.err e) && ob.runs == w.runs then
-        if notifiedAll w.subs ob.cbs (.err e) then .ok { w with known := some (.err e), subs := afterNotify w.subs }
+      if ob.runs != w.runs then .error "provider-once"
+      else if ob.res == .unit && ob.after == some (.err e) then
+        if notifiedAll w.subs ob.cbs (.err e) then
+          .ok { w with known := some (.err e), subs := afterNotify w.subs, done := true }
+        else .error "notify-once"
+      else .error "set"
+    | .setErrorNone =>
+      -- `set_error(None)`: None is the library's "no error", the future is completed with the VALUE None - one
+      -- consistent outcome all the same (error() = None, value() = None)
+      if ob.runs != w.runs then .error "provider-once"
+      else if ob.res == .unit && ob.after == some (.val 0) then
+        if notifiedAll w.subs ob.cbs (.val 0) then
+          .ok { w with known := some (.val 0), subs := afterNotify w.subs, done := true }
         else .error "notify-once"
       else .error "set"
     | .value | .call | .error =>
       match ob.after with
       | some o =>
-        if !readOk ob.op ob.res o true then .error "compute-read"
+        if ob.runs != w.runs && ob.runs != w.runs + 1 then .error "provider-once"
+        else if !computeOk k w ob o then .error "compute-outcome"
+        else if !freshReadOk k ob.op ob.res o then .error "compute-read"
         else if !notifiedAll w.subs ob.cbs o then .error "notify-once"
-        else .ok { w with known := some o, runs := ob.runs, subs := afterNotify w.subs }
+        else .ok { w with known := some o, subs := afterNotify w.subs, done := true }
       | none =>
         -- only a future that has no computation (ConstFuture/ErrorFuture after reset_unsafe) may stay uncomputed
-        if k.sinking && ob.res == .raised .notImplemented && ob.cbs.isEmpty && ob.runs == w.runs then .ok w
+        if ob.runs != w.runs then .error "provider-once"
+        else if k.sinking && ob.res == .raised .notImplemented && ob.cbs.isEmpty then .ok w
         else .error "compute-completes"
 
 def watchRun (k : Kind) (w : Watch) : List Obs → Except String Watch
